@@ -458,7 +458,13 @@ class Oracle:
             if o1["mo"] and name in ("nelec", "spinpol"):
                 return
             if v is None:
-                return  # the statement speaks of values read back "to rounding"; clearing is judged by I1/I6 only
+                # the statement speaks of values read back "to rounding"; clearing is judged by I1/I6 only - except where the
+                # cleared value is pinned by other clauses: with orbitals and core charges present the charge is their
+                # difference, so an assignment of None cannot both succeed and read back as assigned
+                if name == "charge" and o1["mo"] and o1["atcorenums"] is not None and got is not None:
+                    ctx.violation("I2-readback", "I2:charge-cleared-with-orbitals-succeeds-but-reads-a-number", {"history": hist_str(full), "hist": full},
+                                  f"[{hist_str(full)}]: charge = None was accepted although orbitals and core charges fix the charge; it reads {got!r}")
+                return
             rb = close(got, float(v))
             ctx.outcome("I2-readback", "reads-back" if rb else "differs")
             if not rb:
